@@ -47,7 +47,7 @@ from harness.lib import coqbuild
 LEVEL = "proof"
 THEOREMS = ["C14_fail_closed", "C14_never_partial", "C14_not_empty", "C14_checksum", "C14_untouched",
             "C14_row_count_metadata_only", "C14_history_independent", "C14_checksum_survives_history", "C14_no_check_use_gap", "C14_list_fields_without_read_meaning",
-            "C14_healthy_ok",
+            "C14_recovery_listing_fails_closed", "C14_healthy_ok",
             "C14_fail_closed_full_refuted"]
 REQ = ["DS.Gen.GenRead", "DS.Model.Read"]
 KNOWN_KEY = "current-metadata-file-deleted-serves-previous-version"
@@ -456,6 +456,17 @@ class _FailingStream:
         return getattr(self.inner, name)
 
 
+def outage_covers(o: Dict[str, Any], idx: int, rel: str, op: str) -> bool:
+    if idx < o.get("from", 0) or (o.get("len") is not None and idx >= o["from"] + o["len"]):
+        return False
+    if o.get("ops", "all") == "reads" and op not in ("OpRead", "OpOpen"):
+        return False
+    if o.get("ops", "all") == "probes" and op not in ("OpExists", "OpList"):
+        return False
+    cls = "pointer" if rel == HINT_PATH else "data" if rel.startswith("data/") else "metadata"
+    return o.get("paths", "all") in ("all", cls)
+
+
 class _NotifyClose:
     """A stream proxy that reports when the library has finished with the stream (close / end of `with`)."""
 
@@ -490,9 +501,16 @@ class Instr:
     operation on `path` (0-based, any kind) has finished -- for a stream, when the library closes it or issues its
     next storage operation, whichever comes first."""
 
-    def __init__(self, table, fault: Optional[Tuple[str, str, int, str]] = None, mutation: Optional[Tuple[str, int, Any]] = None):
+    def __init__(self, table, fault: Optional[Tuple[str, str, int, str]] = None, mutation: Optional[Tuple[str, int, Any]] = None,
+                 outage: Optional[Dict[str, Any]] = None):
         import threading
         self.table = table
+        # outage = {"from": k, "len": m | None, "ops": "all"|"reads"|"probes", "paths": "all"|"pointer"|"metadata"|"data"}:
+        # every storage call of the selected kind whose index in the call (0-based, all calls counted) lies in
+        # [k, k+m) raises a transient OSError (m None = until the end of the call)
+        self.outage = outage
+        self.outage_hits: List[Tuple[int, str, str]] = []
+        self.ncalls = 0
         self.fault = fault          # (path, op, occurrence, mode) mode in {"call", "stream"}
         self.mutation = mutation
         self.mutated = False
@@ -533,6 +551,13 @@ class Instr:
                 hit = self.fault is not None and self.fault[:3] == (rel, op, occ)
                 if hit:
                     self.fired = True
+                idx = self.ncalls
+                self.ncalls += 1
+                down = self.outage is not None and outage_covers(self.outage, idx, rel, op)
+                if down:
+                    self.outage_hits.append((idx, rel, op))
+            if down:
+                raise TransientIO(f"injected outage: {name}({rel}) is storage call #{idx} of the read")
             if hit and self.fault[3] == "call":
                 raise TransientIO(f"injected transient error on {name}({rel})")
             try:
@@ -907,7 +932,7 @@ def field_edits_for(inv: Inventory, path: str, tier: str) -> List[Dict[str, Any]
 
 def damage_by_name(inv: Inventory, path: str, name: str) -> Optional[Dict[str, Any]]:
     """Rebuild one damage from its name alone (replay, shrinking)."""
-    orig = inv.files[path]
+    orig = inv.files.get(path, b"")
     n = len(orig)
     if name.startswith("edit:"):
         return field_edit(inv, path, name)
@@ -1175,7 +1200,7 @@ def model_expr(mc: ModelCtx, dmg: Dict[str, Any], recovered: Optional[str], api:
                 ov[c].append(e[c])
     if dmg.get("fault"):
         p, op, occ, _mode = dmg["fault"]
-        cells.append(f"({mc.K(p)}, Flaky ({op}, {occ}%nat) {mc.B(mc.inv.files[p])}%N)")
+        cells.append(f"({mc.K(p)}, Flaky ({op}, {occ}%nat) {mc.B(mc.inv.files.get(p, b''))}%N)")
     rec = "None" if recovered is None else f"(Some {mc.K(recovered)})"
     env = "env_of " + rec + " " + " ".join("[" + "; ".join(ov[c]) + "]" for c in COMPONENTS)
     return (f"show (read_current ({env}) (store_of ([{'; '.join(cells)}] ++ base_store)) {api} "
@@ -1359,6 +1384,10 @@ def run_table(ctx, path: str, shape: List[List[int]], tag: str, file_limit: Opti
     targets_dmgs: List[Tuple[str, str, Dict[str, Any]]] = [("", "none", {"name": "healthy", "class": "none", "writes": {}})]
     if HINT_PATH in inv.roles:
         targets = targets + [(HINT_PATH, "pointer")]
+    # the directory listing of the recovery scan (reached when the pointer cannot name the metadata file)
+    for occ in (0, 1):
+        targets_dmgs.append(("metadata", "metadir", {"name": f"transient:OpList:{occ}", "class": "transient", "writes": {},
+                                                     "fault": ("metadata", "OpList", occ, "call")}))
     for p, role in targets:
         for d in damages_for(inv, p, ctx.tier, rng):
             red = (role in reduced) if isinstance(reduced, (set, frozenset)) else bool(reduced)
@@ -1404,7 +1433,7 @@ def run_table(ctx, path: str, shape: List[List[int]], tag: str, file_limit: Opti
                     ck = f"{role}:{dmg['class']}"
                     stats[ck] = stats.get(ck, 0) + 1
                     ctx.count(1, (tag, p, dmg["name"], api, verify))
-                    case = {"table": tag, "shape": shape, "variant": variant, "role": role, "index": [q for q, r_ in inv.reachable() if r_ == role].index(p) if p and role != "pointer" else 0,
+                    case = {"table": tag, "shape": shape, "variant": variant, "role": role, "index": [q for q, r_ in inv.reachable() if r_ == role].index(p) if p and role not in ("pointer", "metadir") else 0,
                             "damage": dmg["name"], "api": api, "verify": verify}
                     if session:
                         case["session"] = True
@@ -1756,6 +1785,85 @@ def oracle_mid_call(ctx, path: str, shape: List[Any]) -> List[Dict[str, Any]]:
     return for_model
 
 
+def outage_plans(ncalls: int, tier: str) -> List[Dict[str, Any]]:
+    """Transient faults lasting more than one storage call: a window [k, k+m) over the calls of one read for every k
+    and m in 1..3 (m = 1 is the single failing call, here also on operations no per-file fault reaches, such as the
+    directory listing of the recovery scan), and outages of a whole class of calls for the whole read."""
+    plans: List[Dict[str, Any]] = []
+    for m in (1, 2, 3) if tier == "quick" else (1, 2, 3, 5):
+        for k in range(ncalls):
+            plans.append({"from": k, "len": m, "ops": "all", "paths": "all"})
+    for k in (range(ncalls) if tier == "thorough" else range(0, ncalls, 3)):
+        plans.append({"from": k, "len": None, "ops": "all", "paths": "all"})
+    for ops in ("reads", "probes"):
+        plans.append({"from": 0, "len": None, "ops": ops, "paths": "all"})
+        for k in range(0, ncalls, 4):
+            plans.append({"from": k, "len": 4, "ops": ops, "paths": "all"})
+    for paths in ("pointer", "metadata", "data"):
+        for ops in ("all", "reads", "probes"):
+            plans.append({"from": 0, "len": None, "ops": ops, "paths": paths})
+    return plans
+
+
+def run_outage(path: str, outage: Dict[str, Any], api: str, verify: bool, session: bool = False):
+    t = open_handle(path)
+    if session:
+        prior_reads(t, api)
+    ins = Instr(t, None, outage=outage)
+    try:
+        impl = run_api(t, api, verify)
+    finally:
+        ins.restore()
+    return impl, ins
+
+
+def judge_outage(inv: "Inventory", api: str, impl: Dict[str, Any]) -> Optional[str]:
+    """Storage failed for a while during the call: the call raises, or -- if what failed was retried or not needed --
+    returns the COMPLETE answer; never a subset, an empty table or a zero count."""
+    if impl.get("hung"):
+        return "did not return: " + impl["msg"]
+    if not impl["ok"]:
+        return None
+    if inv.broken:
+        return f"returned {impl.get('rows', impl.get('count'))} for a table whose current snapshot id matches no snapshot"
+    healthy = len(inv.rows) if api == "RowCount" else inv.rows
+    got = impl["count"] if api == "RowCount" else impl["rows"]
+    return None if got == healthy else f"returned {got} instead of raising; the complete answer is {healthy}"
+
+
+def oracle_outage(ctx, path: str, shape: List[Any], variant: Optional[str], tag: str, session: bool = False) -> None:
+    inv = make_table(path, shape, variant)
+    n = fired = 0
+    for api in APIS:
+        for verify in ((True, False) if api != "RowCount" else (True,)):
+            base, ins0 = run_outage(path, {"from": 10 ** 9, "len": 0}, api, verify, session)
+            if base["ok"] == inv.broken:
+                ctx.violation(f"healthy-table-misread:{api}", f"undamaged table ({variant}): {api} gave {base}",
+                              {"shape": shape, "variant": variant, "damage": "healthy", "api": api, "verify": verify, "role": "none"})
+                continue
+            for plan in outage_plans(ins0.ncalls, ctx.tier):
+                case = {"table": tag, "shape": shape, "variant": variant, "outage": plan, "api": api, "verify": verify}
+                if session:
+                    case["session"] = True
+                CURRENT_CASE.clear()
+                CURRENT_CASE.update(case)
+                impl, ins = run_outage(path, plan, api, verify, session)
+                n += 1
+                ctx.count(1, ("outage", tag, json.dumps(plan, sort_keys=True), api, verify, session))
+                if not ins.outage_hits:
+                    continue
+                fired += 1
+                why = judge_outage(inv, api, impl)
+                if why:
+                    span = "whole read" if plan["len"] is None else f"{plan['len']} call(s)"
+                    ctx.violation(f"{'same-handle:' if session else ''}outage:{plan['ops']}:{plan['paths']}:{api}",
+                                  f"storage outage ({plan['ops']} calls on {plan['paths']} paths, from storage call #{plan['from']} for {span}; "
+                                  f"failed: {[(i, p_, o) for i, p_, o in ins.outage_hits][:4]}) during {api}(verify={verify}) on table {variant or 'standard'}: {why}",
+                                  dict(case, got=impl, failed_calls=ins.outage_hits[:6], expect="outage"))
+    st = ctx.stats.setdefault("outage", {})
+    st[tag] = {"calls": n, "outage_hit_a_storage_call": fired}
+
+
 # ====================================================================================== driver
 def run(ctx) -> None:
     logging.disable(logging.CRITICAL)
@@ -1814,18 +1922,27 @@ def run(ctx) -> None:
     oracle_fresh_handle(ctx, os.path.join(ctx.scratch, "th"))
     oracle_options(ctx, os.path.join(ctx.scratch, "to"))
     oracle_mid_call(ctx, os.path.join(ctx.scratch, "tm"), [[2, 2], [3]])
+    for i, (variant, sess) in enumerate([(None, False), ("no-pointer", False), ("bad-pointer", False), ("json", False), (None, True)]
+                                         + ([("legacy-pointer-missing-file", False), ("no-pointer", True), ("dup", False)] if ctx.tier == "thorough" else [])):
+        oracle_outage(ctx, os.path.join(ctx.scratch, f"to{i}"), [[2, 1], [2]], variant, f"outage:{variant or 'standard'}{':session' if sess else ''}", sess)
     shrink(ctx)
 
 
 def execute_case(case: Dict[str, Any], path: str) -> Optional[Tuple[Dict[str, Any], "Inventory", str]]:
     """Rebuild the table of a recorded case, apply its damage, run its API call. None when not applicable."""
     inv = make_table(path, case["shape"], case.get("variant"))
+    if case.get("outage") is not None:
+        impl, ins = run_outage(path, case["outage"], case["api"], case["verify"], bool(case.get("session")))
+        if not ins.outage_hits:
+            impl = dict(impl, not_reached=True)
+        return impl, inv, f"storage outage {case['outage']} (failed calls: {ins.outage_hits[:4]})"
     if case.get("probe") == "recorded-checksums":
         bad = lost_checksums(inv)
         return {"ok": bool(bad), "rows": bad, "yielded": []}, inv, "recorded checksums after the history"
     if case["damage"] == "healthy":
         return run_api(open_handle(path), case["api"], case["verify"]), inv, "(undamaged)"
-    files = [q for q, r in inv.reachable() if r == case["role"]] if case["role"] != "pointer" else [HINT_PATH]
+    files = ([HINT_PATH] if case["role"] == "pointer" else ["metadata"] if case["role"] == "metadir"
+             else [q for q, r in inv.reachable() if r == case["role"]])
     if not files:
         return None
     p = files[min(case.get("index", 0), len(files) - 1)]
@@ -1876,6 +1993,8 @@ def case_fails(case: Dict[str, Any], impl: Dict[str, Any], inv: "Inventory") -> 
         return False
     if case.get("expect") == "denotation":
         return bool(impl.get("denotation_violated"))
+    if case.get("expect") == "outage":
+        return judge_outage(inv, case["api"], impl) is not None
     if case.get("expect") == "mid-call":
         files = [q for q, r in inv.reachable() if r == case["role"]]
         p = files[min(case.get("index", 0), len(files) - 1)]
@@ -1898,7 +2017,7 @@ def shrink(ctx) -> None:
         case = v["replay"]
         key = KNOWN_KEY if v["key"].startswith(KNOWN_KEY) else v["key"]      # the known finding: shrink one instance
         if (key in seen or not isinstance(case, dict) or "shape" not in case
-                or not (case.get("probe") or ("damage" in case and "api" in case))):
+                or not (case.get("probe") or case.get("outage") or ("damage" in case and "api" in case))):
             continue
         if "@" in case.get("damage", "") and case["damage"] not in ("truncate@0", "truncate@1"):
             continue                    # an offset names a different place in a file of another size
@@ -1924,7 +2043,7 @@ def shrink(ctx) -> None:
 def replay(ctx, payload) -> int:
     logging.disable(logging.CRITICAL)
     case = payload.get("case", {})
-    if "shape" not in case or ("damage" not in case and not case.get("probe")):
+    if "shape" not in case or ("damage" not in case and not case.get("probe") and not case.get("outage")):
         print("replay: payload kind not replayable directly; re-run ./bin/check C14 thorough")
         return 2
     case.setdefault("api", "-")
